@@ -103,8 +103,14 @@ impl Chunk {
     pub fn read_data<R: Read + Seek>(&self, reader: &mut R) -> Result<Vec<u8>> {
         self.seek_to_data(reader)?;
 
-        let mut data = vec![0; self.header.size as usize];
-        reader.read_exact(&mut data)?;
+        // The chunk size is untrusted: read at most `size` bytes and let the buffer grow with
+        // what the stream really holds instead of allocating `size` bytes up front.
+        let size = self.header.size as usize;
+        let mut data = Vec::new();
+        reader.by_ref().take(size as u64).read_to_end(&mut data)?;
+        if data.len() != size {
+            return Err(WmoError::UnexpectedEof);
+        }
 
         Ok(data)
     }
